@@ -545,6 +545,15 @@ func CheckMarshal(tx *gobinlog.Transaction, snap hx.TxSnap) string {
 			if sql != e.SQL && utf8.ValidString(e.SQL) {
 				return fmt.Sprintf("event %d: sql %q, expected %q", i, clip(sql, 60), clip(e.SQL, 60))
 			}
+			if n := len(e.Values) + len(e.Idents); n > 0 {
+				// an event delivered by the stream with SQL text AND row images: the
+				// document must not lose the rows
+				for _, key := range []string{"rowValues", "rowIdentifies"} {
+					if _, ok := je[key]; !ok {
+						return fmt.Sprintf("event %d: the delivered event holds %d row images (and the SQL text %q); the document has no %s", i, n, clip(e.SQL, 40), key)
+					}
+				}
+			}
 			continue
 		}
 		for _, part := range []struct {
@@ -691,6 +700,11 @@ func RunMarshal(r *chk.Run) {
 		if in.Insert.Slot == 2 || in.Insert.Slot == 4 {
 			inputs = append(inputs, in)
 		}
+	}
+	// ROWS_QUERY events in front of a statement (the library gives such a stream
+	// up; whatever it delivers all the same is serialised like everything else)
+	for slot := 0; slot <= 8; slot++ {
+		inputs = append(inputs, HistInput{Units: []string{UTxXID, UTx2, UAutoRows}, Cfg: cfg, Insert: &Insert{Unit: "rowsQ", Slot: slot}})
 	}
 	var ntx int64
 	var mu = make(chan struct{}, 1)
@@ -1394,12 +1408,31 @@ func ReplayNum(input json.RawMessage) (bool, string) {
 type IDInput struct {
 	ID  uint64  `json:"id"`
 	Cfg ref.Cfg `json:"cfg"`
+	// Other, when > 0: a second table with this id is changed by the same
+	// statements (announced before or behind the first, see OtherFirst): a hot
+	// table keeps a small id for weeks while re-opened tables push the counter up
+	Other      uint64 `json:"other,omitempty"`
+	OtherFirst bool   `json:"other_first,omitempty"`
 }
 
 func checkTableID(in IDInput) string {
 	t := TA(in.ID)
 	g := &Gen{Cfg: in.Cfg}
 	ts := g.tick()
+	if in.Other > 0 {
+		u := TB(in.Other)
+		a, b := ref.TM(ts, t), ref.TM(ts, u)
+		if in.OtherFirst {
+			a, b = b, a
+		}
+		evs := []*ref.AEvent{ref.Q(ts, "shop", "BEGIN"), a, b,
+			ref.R(ts, ref.RowWrite, t, ref.RowChange{After: rowA(1, "a", 1)}), ref.R(ts, ref.RowWrite, u, ref.RowChange{After: rowB(7, "n")}), ref.X(ts+1, 821),
+			ref.Q(ts+2, "shop", "BEGIN"), a, b,
+			ref.R(ts+2, ref.RowDelete, u, ref.RowChange{Before: rowB(7, "n")}), ref.R(ts+2, ref.RowUpdate, t, ref.RowChange{Before: rowA(1, "a", 1), After: rowA(1, "A", 2)}), ref.X(ts+3, 822)}
+		h := &ref.History{Cfg: in.Cfg, Files: []*ref.File{{Name: "mysql-bin.000001", Events: evs}}}
+		h.Layout()
+		return checkCustom(h, nil)
+	}
 	evs := []*ref.AEvent{ref.Q(ts, "shop", "BEGIN"), ref.TM(ts, t),
 		ref.R(ts, ref.RowWrite, t, ref.RowChange{After: rowA(1, "a", 1)}, ref.RowChange{After: rowA(2, "b", 2)}, ref.RowChange{After: rowA(3, "c", 3)}),
 		ref.TM(ts, t), ref.R(ts, ref.RowDelete, t, ref.RowChange{Before: rowA(1, "a", 1)}), ref.X(ts+1, 821),
@@ -1435,15 +1468,29 @@ func RunTableIDs(r *chk.Run) {
 		if cfg.TableID6 {
 			ids = append(ids, 0xffffffff, 0x102030ffffff, 0xfffffffffffe)
 		}
+		// two tables in one statement whose ids lie far apart
+		var ins []IDInput
 		for _, id := range ids {
-			in := IDInput{ID: id, Cfg: cfg}
+			ins = append(ins, IDInput{ID: id, Cfg: cfg})
+		}
+		for _, far := range []uint64{108 + 1<<16, 108 + 1<<24 - 1, 108 + 1<<24, 108 + 1<<24 + 1, 3000000000, 0xfffffffe} {
+			for _, first := range []bool{false, true} {
+				ins = append(ins, IDInput{ID: 108, Other: far, OtherFirst: first, Cfg: cfg})
+			}
+		}
+		if cfg.TableID6 {
+			ins = append(ins, IDInput{ID: 108, Other: 1 << 40, Cfg: cfg}, IDInput{ID: 1<<47 + 5, Other: 7, OtherFirst: true, Cfg: cfg})
+		}
+		for _, in := range ins {
+			in := in
+			id := in.ID
 			n++
 			why := checkTableID(in)
 			if why == "HUNG" {
 				chk.Fatalf("table ids: Stream did not return within 60 s")
 			}
 			if why != "" {
-				r.Report(chk.Violation{Key: "table-id-edge", What: fmt.Sprintf("table id %#x cfg=%s: %s", id, CfgName(cfg), why),
+				r.Report(chk.Violation{Key: "table-id-edge", What: fmt.Sprintf("table id %#x (second table of the statements: id %#x, announced first: %v) cfg=%s: %s", id, in.Other, in.OtherFirst, CfgName(cfg), why),
 					Kind: "tableid", Replay: in, Recheck: func() string { return checkTableID(in) }})
 			}
 		}
@@ -2284,7 +2331,7 @@ func checkNest(in NestInput) string {
 			}
 		}
 	}
-	oo := Opts{Start: startO, ServerID: id, LockStep: true, KeepTx: true, Mapper: mo}
+	oo := Opts{Start: startO, ServerID: id, LockStep: true, KeepTx: true, Mapper: mo, HungAfter: 45}
 	if in.Where != "mapper" {
 		oo.Nest = func(k int) {
 			if k == in.K {
@@ -2293,16 +2340,16 @@ func checkNest(in NestInput) string {
 		}
 	}
 	ro := Start(outer, oo)
-	ri = Start(inner, Opts{Start: startI, ServerID: id, LockStep: true, KeepTx: true})
+	ri = Start(inner, Opts{Start: startI, ServerID: id, LockStep: true, KeepTx: true, HungAfter: 20})
 	defer ro.Close()
 	defer ri.Close()
 	okO := ro.Attempt()
-	if !ran {
-		return "" // the outer stream has fewer calls of that kind
-	}
 	where := fmt.Sprintf("inside %s call %d of the outer stream", in.Where, in.K)
-	if innerHung || !okO {
-		return fmt.Sprintf("the inner stream, run %s, did not come to an end within 60 s although its master served everything: a stream must not wait for the user code of another stream", where)
+	if innerHung || (ran && !okO) {
+		return fmt.Sprintf("the inner stream, run %s, did not come to an end within 20 s although its master served everything: a stream must not wait for the user code of another stream", where)
+	}
+	if !okO {
+		return "HUNG"
 	}
 	check := func(who string, r *Runner, exp []ref.ExpTx, start ref.Position) string {
 		o := r.Outcome()
@@ -2337,6 +2384,14 @@ func checkNest(in NestInput) string {
 		}
 		return ""
 	}
+	if !ran {
+		// the outer stream has fewer calls of that kind: two Streamers side by side,
+		// only one of them has streamed so far
+		if why := check("the outer stream (a second Streamer exists and has its own position, it has not streamed yet)", ro, expO, startO); why != "" {
+			return why
+		}
+		return ""
+	}
 	if why := check("the inner stream ("+where+")", ri, expI, startI); why != "" {
 		return why
 	}
@@ -2354,6 +2409,20 @@ func checkNest(in NestInput) string {
 		return why
 	}
 	return ""
+}
+
+// RunTwoStreamsFirst runs the two-stream executions BEFORE anything in this
+// process streams in parallel and ends the run at once when they find
+// something: state that the library keeps outside the Streamer makes the
+// parallel phases (many Streamers at a time, by design) non-deterministic or
+// kills the process (the run-time aborts on concurrent map writes), whereas
+// the nested executions show the same defect deterministically.
+func RunTwoStreamsFirst(r *chk.Run) {
+	RunNested(r)
+	if r.Violated() {
+		r.SetExhaustive(false)
+		r.Finish()
+	}
 }
 
 // RunNested is shared by C01, C05 (scale half), C15 and C16.
